@@ -571,6 +571,10 @@ func scenarios() map[string]*sched.Scenario {
 
 var schedParts = []string{"ids", "peer", "encode"}
 
+// PeerScenario is the peer-queue scenario (two senders and the flush timer on one real Peer), for C05's
+// scheduled part: forwarding a message to a peer exactly once is also part of C05's statement.
+func PeerScenario() *sched.Scenario { return scenarios()["peer"] }
+
 func bounds(c *core.Ctx) int {
 	if c.Quick() {
 		return 2
